@@ -49,6 +49,8 @@ type shadow struct {
 	written    map[int]bool // series that exist in the persistent index
 	unsafeEver bool         // some first-time slot arrived before the current end of its window
 	splitField map[int]bool // a slot of this field has points in more than one storage unit
+	// splitFlushField: ... in units separated by a flush (memory database / file / file)
+	splitFlushField map[int]bool
 	units      map[cellKey]unitTok
 	// flushedCell: cells of first/last fields that already live in a file (the generator does not
 	// write them again: the order in which several files are read is a map iteration order)
@@ -57,7 +59,7 @@ type shadow struct {
 
 func newShadow(spf int) *shadow {
 	return &shadow{spf: spf, fams: map[int]*famShadow{}, known: map[int]bool{}, written: map[int]bool{},
-		splitField: map[int]bool{}, units: map[cellKey]unitTok{}, flushedCell: map[cellKey]bool{}}
+		splitField: map[int]bool{}, splitFlushField: map[int]bool{}, units: map[cellKey]unitTok{}, flushedCell: map[cellKey]bool{}}
 }
 
 func (s *shadow) fam(f int) *famShadow {
@@ -130,6 +132,9 @@ func (s *shadow) write(f, ser, fld, slot int) {
 	tok := unitTok{fs.flushGen, p.epoch}
 	if old, ok := s.units[ck]; ok && old != tok {
 		s.splitField[fld] = true
+		if old.flushGen != tok.flushGen {
+			s.splitFlushField[fld] = true
+		}
 	}
 	s.units[ck] = tok
 }
